@@ -7,6 +7,7 @@ over the pre-state (`old(...)`) and the post-state heap.
 from __future__ import annotations
 
 import ast
+import re
 import time
 
 import z3
@@ -543,7 +544,10 @@ def apply_contract(I, ct, f, args, kwargs, fr, node):
         text = r.text if isinstance(r, Clause) else r
         rid = r.id if isinstance(r, Clause) else "requires"
         goal = eval_bool(I, text, env, pre, pre)
-        check_goal(I, goal, f"pre/{ct.qualname.rsplit('.', 1)[-1]}/{rid}", "helper", getattr(I, "unit_name", ""))
+        callee = ct.qualname.rsplit('.', 1)[-1]
+        # a precondition that carries a property id is that property's obligation at every call site
+        oname = f"{rid}@call:{callee}" if re.match(r"C\d\d", rid) else f"pre/{callee}/{rid}"
+        check_goal(I, goal, oname, "helper", getattr(I, "unit_name", ""))
         c.assume(goal)
     fs = eval_modifies(I, ct, env, pre)
     # fresh objects the callee allocates
